@@ -1,3 +1,4 @@
+import re
 # Evaluation of contract expressions (speclang AST) over executor states.
 import z3
 from .values import *
@@ -648,6 +649,10 @@ class SpecMixin:
         if name == 'has':      # has(m, k): key present in map
             m = self.sev(env, args[0]); kx = self.mapkey(env.st, self.sev(env, args[1]))
             return z3.Select(m.dom, kx)
+        if name == 'isglobal' and hasattr(self, 'callghost'):      # isglobal(t, "$name"): the type descriptor t is the global type $name
+            x = self.sev(env, args[0])
+            nm = args[1][1].decode() if isinstance(args[1][1], bytes) else args[1][1]
+            return z3.Function('isglobal_' + re.sub(r'\W', '_', nm), I, B)(x)
         if name in ('copiedFrom', 'copiedBy') and hasattr(self, 'callghost'):
             # the abstract calls of f.typ.copy recorded by the JavaScript executor: copiedFrom(a) = b, copiedBy(a) = the type
             x = self.sev(env, args[0])
